@@ -41,6 +41,12 @@ combs = z3.Function('combs', ISeq, Int, CSeq)     # itertools.combinations(s,k) 
 sat = z3.Function('sat', Asg, CSeq, Bool)         # every clause true
 cmaxabs = z3.Function('cmaxabs', CSeq, Int)       # max |literal| over all clauses (0 if none)
 chaszero = z3.Function('chaszero', CSeq, Bool)    # some clause contains the literal 0
+m_complete = z3.Function('m_complete', Asg, Int, Bool)      # relational meanings of a mapping group (by group id)
+m_functional = z3.Function('m_functional', Asg, Int, Bool)
+m_surjective = z3.Function('m_surjective', Asg, Int, Bool)
+m_injective = z3.Function('m_injective', Asg, Int, Bool)
+m_nondecreasing = z3.Function('m_nondecreasing', Asg, Int, Bool)
+bitlen = z3.Function('bitlen', Int, Int)                    # number of bits of a binary mapping with m images
 rnbrs = z3.Function('rnbrs', Int, Int, ISeq)       # right neighbours of left vertex u in the (abstract) bipartite graph g
 apseq = z3.Function('apseq', Int, Int, ISeq)       # [start, start+1, ..., start+n-1]
 negunits = z3.Function('negunits', ISeq, CSeq)     # [[-l] for l in s]
